@@ -421,6 +421,13 @@ class ConnGen:
                 self.next_client += 1
         gid = d.choice(sorted(self.ghosts))
         iface = self.ghosts[gid]
+        if gid < SERVER_BASE and d.chance(0.2):
+            # the unseen object is destroyed: its delete_id names an id the tool never saw created; the id is free again
+            # (and may be handed out anew later)
+            del self.ghosts[gid]
+            self.dead[gid] = iface
+            self.gens.setdefault(gid, 0)
+            return dict(sent=self.sent(True), iface='wl_display', id=1, name='delete_id', args=[['uint', gid]])
         if iface not in P:
             args = [['int', d.int(-5, 5)]] if d.chance(0.5) else []
             if d.chance(0.6):
@@ -626,6 +633,7 @@ def labels_of(hist):
         if not m['args']: L.add('zero-arg-message')
         if len(recs) > 1 and r is not recs[0] and any(p['m'] is not m and p['conn'] is r['conn'] and all(p['m'][k] == m[k] for k in ('sent', 'iface', 'id', 'name', 'args', 't_us')) for p in recs[max(0, recs.index(r) - 1):recs.index(r)]): L.add('duplicate-line')
         if r['destroyed'] is not None: L.add('delete_id')
+        if m['iface'] == 'wl_display' and m['name'] == 'delete_id' and r['destroyed'] is None: L.add('delete_id-of-unseen-object')
         if getattr(r['target'], 'ghost', False): L.add('unseen-target' + ('-creates' if r['created'] else ''))
         if any(getattr(o, 'ghost', False) for o in r['args'] if o is not None): L.add('unseen-object-arg')
         for a in m['args']:
